@@ -103,7 +103,8 @@ fn encode_pkg(entries: &[Value], enc: &str, jail: &Path) -> Vec<u8> {
         } else {
             e["target"]["comps"].as_array().unwrap().iter().map(|c| c.as_str().unwrap()).collect::<Vec<_>>().join("/")
         };
-        let mode: u32 = match kind { "file" => 0o100644, "dir" => 0o040755, "link" => 0o120777, _ => 0o010644 };
+        // permission bits unlike anything the jail starts with, so that a chmod that lands outside the target shows
+        let mode: u32 = match kind { "file" => 0o100640, "dir" => 0o040711, "link" => 0o120777, _ => 0o010644 };
         modes.push(mode);
         let content: Vec<u8> = if kind == "file" { data } else { vec![] };
         sizes.push(content.len() as u32);
